@@ -154,7 +154,52 @@ pub fn run(id: &str, tier: &str) -> i32 {
         let r = engine::run_generated(plan.check.as_ref(), n, seed.wrapping_add(i as u64 * 101), threads);
         report.absorb(r);
     }
-    report.finish()
+    // 4. thorough only: coverage-guided campaign (libFuzzer; the tape decoder is the structure-aware front end)
+    let mut fuzz_rc = 0;
+    if tier == "thorough" && std::env::var("VERIF_NO_FUZZ").is_err() {
+        let target = match id {
+            "C02" | "C03" | "C04" | "C05" | "C06" | "C07" | "C09" | "C10" | "C12" | "C14" | "C15" => Some(("fz_static", id)),
+            "C13" => Some(("fz_text", "")),
+            _ => None,
+        };
+        if let Some((target, props)) = target {
+            let secs = std::env::var("VERIF_FUZZ_SECS").unwrap_or_else(|_| "300".into());
+            let out = std::process::Command::new(format!("{}/tools/fuzz.sh", engine::VERIF_ROOT)).args(["run", target, &secs, props]).output();
+            match out {
+                Ok(o) => {
+                    let text = String::from_utf8_lossy(&o.stdout).to_string();
+                    for l in text.lines() {
+                        println!("{l}");
+                    }
+                    fuzz_rc = o.status.code().unwrap_or(2);
+                    report.stats.extra.insert("fuzz".into(), serde_json::json!({"target": target, "seconds": secs, "exit": fuzz_rc, "summary": text.lines().last().unwrap_or("")}));
+                    if fuzz_rc == 1 {
+                        // the campaign found a property failure: load its replay as a violation of this run
+                        for l in text.lines().filter(|l| l.starts_with("VIOLATION")) {
+                            if let Some(path) = l.split("replay=").nth(1) {
+                                if let Some(doc) = load_json(path.trim()) {
+                                    report.violations.push(engine::Failure {
+                                        signature: doc["signature"].as_str().unwrap_or("fuzz").to_string(),
+                                        detail: doc["detail"].as_str().unwrap_or("").to_string(),
+                                        case: doc["case"].clone(),
+                                    });
+                                }
+                            }
+                        }
+                    }
+                }
+                Err(e) => {
+                    println!("INCONCLUSIVE: cannot run the fuzz campaign: {e}");
+                    fuzz_rc = 2;
+                }
+            }
+        }
+    }
+    let rc = report.finish();
+    if rc == 0 && fuzz_rc == 2 {
+        return 2;
+    }
+    rc
 }
 
 /// (file, config) cases from /verif/corpus/real
